@@ -334,6 +334,7 @@ def run_case(case):
     res["nontrivial"] = True
     if case["i"] < 1:
         res["sample"] = {"file_name": rnd_name(common.rng("s", 1)), "string": rnd_string(common.rng("s", 2)), "sequence": [hex(x) for x in seqs[0]]}
+    res["evaluated"] = sum(res["counters"].get(k_, 0) for k_ in ("a.configs", "b.rows", "c.filenames", "d.names", "e.parts", "f.rspfiles"))  # round trips performed
     return res
 
 
